@@ -925,10 +925,17 @@ def _comb_only_local(idx, f, name):
     for st in _ast.walk(f.node):
         if not (isinstance(st, _ast.AugAssign) and isinstance(st.op, _ast.Add)):
             continue
-        tgt = _ast.unparse(st.target).replace('"', "'")
-        if not (tgt.startswith("m.d.") or tgt.startswith("m.d[")):
+        # <module>.d.<domain> / <module>.d["<domain>"], whatever the Module is called
+        t_ = st.target
+        dom = None
+        if isinstance(t_, _ast.Attribute) and isinstance(t_.value, _ast.Attribute) and t_.value.attr == "d":
+            dom = t_.attr
+        elif isinstance(t_, _ast.Subscript) and isinstance(t_.value, _ast.Attribute) and t_.value.attr == "d" and \
+                isinstance(t_.slice, _ast.Constant):
+            dom = t_.slice.value
+        if dom is None:
             continue
-        dom_comb = tgt in ("m.d.comb", "m.d['comb']")
+        dom_comb = dom == "comb"
         for x in _ast.walk(st.value):
             if isinstance(x, _ast.Call) and isinstance(x.func, _ast.Attribute) and x.func.attr == "eq":
                 r = x.func.value
